@@ -25,6 +25,13 @@ type Legacy struct {
 	OtherTags map[string]string
 	Kinds     []string
 	Subjects  []string
+	// Fallback: fallback tag -> its subject and the existing manifests it lists that name that subject
+	Fallback map[string]LFallback
+}
+
+type LFallback struct {
+	Subject string
+	Lists   []string
 }
 
 // BuildLegacy writes a legacy layout into root/leg.
@@ -67,7 +74,7 @@ func BuildLegacy(r *rand.Rand, root string, tag string) Legacy {
 		raw, _ := json.Marshal(m)
 		return LMan{D: wr(raw, "sha256"), Raw: raw, Subject: subj, AT: at, Ann: ann, Index: true}
 	}
-	L := Legacy{Expected: map[string][]string{}, OtherTags: map[string]string{}}
+	L := Legacy{Expected: map[string][]string{}, OtherTags: map[string]string{}, Fallback: map[string]LFallback{}}
 	entries := []any{}
 	tagEntry := func(mt, d string, size int, tg string) any {
 		return map[string]any{"mediaType": mt, "digest": d, "size": size, "annotations": map[string]string{AnnotRefName: tg}}
@@ -97,6 +104,7 @@ func BuildLegacy(r *rand.Rand, root string, tag string) Legacy {
 		L.Kinds = append(L.Kinds, kind)
 		descs := []any{}
 		accDescs := []any{} // the accurate descriptors of this subject's own referrers
+		var own []string
 		for j := 0; j < nref; j++ {
 			subjFor := sd
 			if kind == "mixed-subject" && j == 0 && len(L.Subjects) > 1 {
@@ -125,6 +133,7 @@ func BuildLegacy(r *rand.Rand, root string, tag string) Legacy {
 			L.All = append(L.All, a)
 			L.Expected[subjFor] = append(L.Expected[subjFor], a.D)
 			if subjFor == sd {
+				own = append(own, a.D)
 				acc := map[string]any{"mediaType": dsc["mediaType"], "digest": a.D, "size": len(a.Raw), "annotations": a.Ann}
 				if eff != "" {
 					acc["artifactType"] = eff
@@ -164,6 +173,7 @@ func BuildLegacy(r *rand.Rand, root string, tag string) Legacy {
 			hex = hex[:64]
 		}
 		entries = append(entries, tagEntry(MTIndex, fbd, len(fb), alg+"-"+hex))
+		L.Fallback[alg+"-"+hex] = LFallback{Subject: sd, Lists: own}
 		if r.Intn(4) == 0 {
 			// an ordinary tag on the very same index: it is one of "every other tag" and stays
 			ot := fmt.Sprintf("artifacts-%d", si)
